@@ -29,4 +29,16 @@ CHECKS = {
         "text": "Every labelled network with <=3 unit-coefficient reactions over 3 species (thorough: coefficients <=2, 4 species, flows up to 3): minimal siphons/traps (for every max_size, from hypergraph and bipartite input, and through PetriAnalyzer) against the definitions evaluated on every subset; enabled/fire on every marking in {0,1,2}^s; is_realizable for every flow in {0..2}^r against an exhaustive search over (marking, remaining firings), certificates replayed step by step.",
         "note": "Small-scope bounds as stated; the implementation's own max_states bound is never reached on these sizes (oracle state count asserted <= 10^4), so 'unrealizable' answers are compared with a complete search. siphon_persistence_condition is not part of the property statement and is not judged.",
     },
+    "C16": {
+        "ready": True, "engine": "E1",
+        "technique": "bounded-exhaustive enumeration of small networks x label/coefficient/id/molecule-label schemes x every invertible export flag combination; reference-model equality after each round trip",
+        "text": "Every network with <=2 reactions over 3 species and coefficients {0,1,2} (thorough: all labelled, 3 reactions, 4 species) and all ordered triples (thorough: quadruples) of reactions that share one species pair with different coefficients are exported and re-imported through the bipartite graph (8 flag combinations), reaction strings (4) and the species graph (2); ids, rules, coefficients, molecule labels (including falsy ones) and species sets are compared exactly.",
+        "note": "Label domain: labels start with a letter, contain no blank/+/>/|; species labels and reaction ids disjoint. Scheme choice per network is a deterministic hash, not a random draw.",
+    },
+    "C18": {
+        "ready": True, "engine": "E1+E3",
+        "technique": "bounded-exhaustive enumeration of networks x all presentations (renamings, reaction orders, id schemes) x views; global grouping by canonical digest verified with an independent isomorphism enumerator; deviation-bounded exploration of id() reuse",
+        "text": "Every network with <=3 unit-coefficient reactions over 3 species up to permutation (plus a coefficient-2 family and symmetric rings) is canonicalised under all 6 renamings x all reaction orders x 2 id schemes in 3 view configurations; all presentations must give the same canonical graph, which must be isomorphic to the view; canonical digests of the whole family are grouped and every group is verified pairwise isomorphic (non-isomorphic views never share a canonical graph); automorphism counts and orbits of CRNCanonicalizer and CRNAutomorphism are compared with brute-force automorphism enumeration. The id seam explores every legal reuse of a dead temporary's id (<=2 deviations).",
+        "note": "Canonical graphs compared on structure + the configured attribute keys. After the D14 repair the implementation no longer calls id(), so the seam has no choice points on the current tree (reported in the evidence); it is kept so that a re-introduced identity-keyed cache is explored.",
+    },
 }
